@@ -11,6 +11,7 @@ import (
 	"path/filepath"
 	"strconv"
 	"strings"
+	"time"
 
 	"github.com/scottyw/tetromino/gameboy"
 	"github.com/scottyw/tetromino/gameboy/controller"
@@ -29,6 +30,12 @@ type detResult struct {
 // detRun runs a ROM through package gameboy (stand-in display and speakers attached) for a number of frames with a
 // seeded button schedule and returns one digest per frame plus a final digest that includes the audio stream.
 func detRun(rom string, seed int64, frames int) detResult {
+	return detRunJitter(rom, seed, frames, false)
+}
+
+// detRunJitter: jitter = the host is slow now and then (a pause of a few milliseconds after a key event): emulated
+// time does not pass meanwhile, so nothing may depend on it
+func detRunJitter(rom string, seed int64, frames int, jitter bool) detResult {
 	rng := rand.New(rand.NewSource(seed))
 	serial := &bytes.Buffer{}
 	gb := gameboy.New(gameboy.Config{RomFilename: rom, SerialWriter: serial})
@@ -40,6 +47,15 @@ func detRun(rom string, seed int64, frames int) detResult {
 			b := buttons[rng.Intn(len(buttons))]
 			held[b] = !held[b]
 			gb.VerifDisplay().VerifButton(b, held[b])
+		}
+		if f%5 >= 3 {
+			// the same key pressed in one frame and released in the next (a tap)
+			b := buttons[(f/5)%len(buttons)]
+			held[b] = !held[b]
+			gb.VerifDisplay().VerifButton(b, held[b])
+			if jitter {
+				time.Sleep(6 * time.Millisecond)
+			}
 		}
 		gb.VerifRunFrame(context.Background())
 		res.Frames = append(res.Frames, gbDigest(gb, serial)^digest([]byte{gb.VerifMapper().VerifPeek(0xff00)}))
@@ -62,7 +78,7 @@ func detScenario(id, rom string, seed int64, frames int) *trace.Scenario {
 			other.VerifRunFrame(context.Background())
 			other.Cleanup()
 		}()
-		b := detRun(rom, seed, frames)
+		b := detRunJitter(rom, seed, frames, true)
 		// third run in a separate process
 		self, _ := os.Executable()
 		cmd := exec.Command(self, "system", "detchild", "-in", rom, "-seed", strconv.FormatInt(seed, 10), "-shards", strconv.Itoa(frames))
@@ -78,6 +94,47 @@ func detScenario(id, rom string, seed int64, frames int) *trace.Scenario {
 			}
 		} else {
 			panic("child process printed no result: " + line)
+		}
+		for f := 0; f < frames; f++ {
+			cv := -1
+			if f < len(c.Frames) {
+				cv = c.Frames[f]
+			}
+			sc.Ev = append(sc.Ev, []any{"d3", f, a.Frames[f], b.Frames[f], cv})
+		}
+		sc.Ev = append(sc.Ev, []any{"d3", frames, a.Final, b.Final, c.Final})
+	})
+	if perr != "" {
+		sc.Ev = append(sc.Ev, []any{"panic", perr})
+	}
+	return sc
+}
+
+// detRewrite: a ROM file is run, then *rewritten* with a different program under the same name and run again; the
+// second result must be that of the second program (compared with the same image under a fresh name, in this process
+// and in a separate one): the configuration names a file, and what counts is what the file holds when it is loaded.
+func detRewrite(id string, tmp string, k int, frames int) *trace.Scenario {
+	p := filepath.Join(tmp, fmt.Sprintf("rw-%d.gb", k))
+	fresh := filepath.Join(tmp, fmt.Sprintf("rw-%d-fresh.gb", k))
+	sc := &trace.Scenario{ID: id, Reset: []any{"detrw", p, k, frames}}
+	perr := machine.Try(func() {
+		seed := int64(7700 + k)
+		os.WriteFile(p, genROM(int64(8*(9000+k))), 0o644)
+		detRun(p, seed, 3)
+		img := genROM(int64(8*(9500+k) + 2))
+		os.WriteFile(p, img, 0o644)
+		os.WriteFile(fresh, img, 0o644)
+		a := detRun(fresh, seed, frames)
+		b := detRun(p, seed, frames)
+		self, _ := os.Executable()
+		out, err := exec.Command(self, "system", "detchild", "-in", fresh, "-seed", strconv.FormatInt(seed, 10), "-shards", strconv.Itoa(frames)).Output()
+		if err != nil {
+			panic(fmt.Sprintf("child process failed: %v", err))
+		}
+		var c detResult
+		line := strings.TrimSpace(string(out))
+		if i := strings.LastIndex(line, "DET "); i >= 0 {
+			json.Unmarshal([]byte(line[i+4:]), &c)
 		}
 		for f := 0; f < frames; f++ {
 			cv := -1
@@ -126,6 +183,9 @@ func systemGenOther(c *Ctx, w *trace.Writer, tmp string) {
 			}
 			w.Put(detScenario(fmt.Sprintf("system-det-%d", i), rom, rng.Int63n(1<<40), fr))
 		}
+		for k := 0; k < 2; k++ {
+			w.Put(detRewrite(fmt.Sprintf("system-detrw-%d", k), tmp, k, 12))
+		}
 	}
 	systemGenMulti(c, w, tmp)
 }
@@ -137,6 +197,8 @@ func systemRerunOther(c *Ctx, w *trace.Writer, s *trace.Scenario, tmp string) {
 		rom = filepath.Join(tmp, filepath.Base(rom))
 	}
 	switch trace.Str(r[0]) {
+	case "detrw":
+		w.Put(detRewrite(s.ID, tmp, trace.Int(r[2]), trace.Int(r[3])))
 	case "det":
 		w.Put(detScenario(s.ID, rom, int64(trace.Int(r[2])), trace.Int(r[3])))
 	default:
